@@ -97,9 +97,14 @@ def judge(case):
     if max([len(M.cmps(p)) for p in M.preds(prog["body"])] or [0]) >= 13:
         tags.append("predicate-atoms>=13")
         nt = True
+    tags += common.pre_noise(case)
     res = sut.compile_text(text)
     if res[0] != "ok":
-        return {"viol": ["grammatical experiment does not compile: %s: %s | %s" % (res[1], res[2], text)], "nontrivial": nt,
+        after = ""
+        if case.get("noise"):
+            after = " | compiled right after the unrelated text %r" % case["noise"]
+            common.reset_after_violation()
+        return {"viol": ["grammatical experiment does not compile: %s: %s | %s%s" % (res[1], res[2], text, after)], "nontrivial": nt,
                 "tags": tags, "key": text}
     labels = [M.lit_value(g["lit"]) for r in rets for g in r["groups"]]
     viol = []
@@ -173,13 +178,18 @@ def fixed_programs():
         prog(M.cmp_(I("y"), "in", I("x")), splitters=["y"]),
     ]
     # salts / strings that are hostile to naive embedding, with and without splitters
+    hostile = []
     for i, t in enumerate(["{", "}", "{}", "{x}", "{0}", "{uid}", "%s", "%(uid)s", "C:\\", "a\\", "it's", 'say "hi"', "\uff02", "\uff07q", "a\rb",
-                           "{{", "$uid", "#", "\\'", "\\n"]):
+                           "{{", "$uid", "#", "\\'", "\\n", "tab\there", "\tlead", "x\t", " lead", "trail ", "\u00a0", "\x0c"]):
         q = "'" if '"' in t else '"'
         body = M.if_([(M.cmp_(I("x"), "==", M.lit_str(t, q)), M.ret([(M.lit_str(t + " A", q), "1"), (M.lit_str("B"), "1")]))], R1)
-        shapes.append(M.program("exp", body, salt=t, splitters=["uid"] if i % 3 else ["uid", "x"], salt_q=q))
+        hostile.append((M.program("exp", body, salt=t, splitters=["uid"] if i % 3 else ["uid", "x"], salt_q=q), t))
         if i % 4 == 0:
-            shapes.append(M.program("exp", body, salt=t, splitters=None, salt_q=q))
+            hostile.append((M.program("exp", body, salt=t, splitters=None, salt_q=q), t))
+    for p, t in hostile:
+        # inputs that reach the literal (so the two-group statement, the salt and the label all matter) and one that does not
+        yield {"prog": p, "inputs": [M.enc_inputs({"uid": "u%d" % j, "x": t}) for j in range(8)] + [M.enc_inputs({"uid": "u1", "x": "other"})],
+               "shape": "fixed"}
     for p in shapes:
         fields = M.all_fields(p)
         ins = []
